@@ -222,6 +222,17 @@ void ebpps_sketch<T, A>::internal_merge(O&& sk) {
   k_ = std::min(k_, sk.k_);
   const uint64_t new_n = n_ + sk.n_;
 
+  if (sk.cumulative_wt_ == 0.0) {
+    // nothing to insert (this was the empty side before the swap), but k_ may have shrunk:
+    // bring the sample down to the new size
+    const double new_rho = std::min(1.0 / wt_max_, k_ / cumulative_wt_);
+    if (new_rho < rho_) {
+      sample_.downsample(new_rho / rho_);
+      rho_ = new_rho;
+    }
+    return;
+  }
+
   // Insert sk's items with the cumulative weight
   // split between the input items. We repeat the same process
   // for full items and the partial item, scaling the input
